@@ -33,7 +33,8 @@ RULE = ("Ion sets (2-11 ions, charges -4..+4, molalities n*2^k spanning 2^-40..6
         "summation can blur - is not judged).  Dict form: keys are G1 formulas with the charge overridden to the "
         "drawn value, or a pool of real ions.  Non-trivial (ionic_*): >= 3 ions, some |z| >= 2 and >= 6 decades "
         "between the smallest and largest molality.  dh_constants: T 250-650 K, eps_r 5-100, rho 500-1500 kg/m3, "
-        "b0 0.1-10 mol/kg, inputs in random compatible units; non-trivial = non-SI unit on some input.  log_gamma / "
+        "b0 0.1-10 mol/kg as a quantity, or omitted, or the plain int 1 (every path), inputs in random compatible units; "
+        "non-trivial = non-SI unit on some input.  log_gamma / "
         "activity: I over 1e-12..1e2 (and 0), z -4..4, a 1-10 angstrom; non-trivial = |z| >= 2 and I > 0 "
         "(activity: >= 2 species with different |z|).")
 ASSUMPTIONS = [
@@ -569,12 +570,31 @@ def dh_cases(draw):
     for k in ("eps", "T", "rho", "b0"):
         if k not in mask:
             p2[k] = p1[k]
+    b0_form = draw(st.sampled_from(B0_FORMS + ["quantity"]))
     return {"p1": p1, "p2": p2, "varied": sorted(mask),
-            "default_b0": draw(st.integers(0, 3)) == 0,        # b0 left at its default (1 mol/kg) in every path
+            "b0_form": b0_form, "b0_keyword": draw(st.booleans()),
+            "default_b0": b0_form != "quantity",               # b0 = 1 mol/kg (omitted or the plain int 1) in every path
             "T_unit": draw(st.sampled_from(list(T_UNITS))),
             "rho_unit": draw(st.sampled_from(list(RHO_UNITS))),
             "b0_unit": draw(st.sampled_from(list(B0_UNITS))),
             "const_units_kw": draw(st.booleans())}
+
+
+# The forms in which the optional reference molality b0 can be handed over (decided by calling the unchanged tree):
+#   omitted   every path: 1 mol/kg
+#   int1      the plain integer 1, positionally or as b0=1: the numeric path reads it as 1 mol/kg; with units=... given
+#             (with or without constants=) the code recognises "the reference molality was left at 1" and attaches
+#             mol/kg, so A stays dimensionless and B in 1/m - the documented default "(default: 1)" spelt out
+#   quantity  a molality in mol/kg | molal | mmol/g | mmol/kg on the units / constants paths (the only form that works
+#             with constants= alone, no units=), the SI float on the numeric path
+# Not generated: a plain float (1.0, 0.5 ...) together with units=/constants= - the unchanged tree leaves it without a
+# unit (A comes out in kg**0.5/mol**0.5), i.e. plain numbers for dimensional arguments are not supported in units mode
+# except for the int 1; likewise omitted / int 1 with constants= but no units=.
+B0_FORMS = ["quantity", "omitted", "int1"]
+
+
+def _b0_form(case):
+    return case.get("b0_form") or ("omitted" if case["default_b0"] else "quantity")     # older replay files
 
 
 def _dh_paths(case, p, which):
@@ -582,7 +602,8 @@ def _dh_paths(case, p, which):
     from chempy import electrolytes as el
     from chempy.units import default_units as u, default_constants as consts
     fn = getattr(el, which)
-    dflt = case["default_b0"]
+    form = _b0_form(case)
+    dflt = form != "quantity"
     Tm = p["T"] / T_UNITS[case["T_unit"]]
     rm = p["rho"] / RHO_UNITS[case["rho_unit"]]
     bm = p["b0"] / B0_UNITS[case["b0_unit"]]
@@ -593,7 +614,16 @@ def _dh_paths(case, p, which):
     eff = {"eps": p["eps"], "T": Tm * T_UNITS[case["T_unit"]], "rho": rm * RHO_UNITS[case["rho_unit"]],
            "b0": 1.0 if dflt else bm * B0_UNITS[case["b0_unit"]]}
     out = {}
-    if dflt:
+    if form == "int1":
+        one = 1      # the plain Python int, not a float and not a numpy integer
+        if case.get("b0_keyword"):
+            out["numeric"] = fn(p["eps"], eff["T"], eff["rho"], b0=one)
+            out["units"] = fn(p["eps"], Tq, rq, b0=one, units=u)
+        else:
+            out["numeric"] = fn(p["eps"], eff["T"], eff["rho"], one)
+            out["units"] = fn(p["eps"], Tq, rq, one, units=u)
+        out["constants"] = fn(p["eps"], Tq, rq, b0=one, constants=consts, units=u)
+    elif dflt:
         out["numeric"] = fn(p["eps"], eff["T"], eff["rho"])
         out["units"] = fn(p["eps"], Tq, rq, units=u)
         out["constants"] = fn(p["eps"], Tq, rq, constants=consts, units=u)
@@ -608,10 +638,11 @@ def _dh_paths(case, p, which):
 
 
 def check_dh(case, ctx):
+    form = _b0_form(case)
     ctx.label("T_unit=" + case["T_unit"], "rho_unit=" + case["rho_unit"],
-              "b0=default" if case["default_b0"] else "b0_unit=" + case["b0_unit"], "varied=" + "+".join(case["varied"]))
+              "b0=" + form if form != "quantity" else "b0_unit=" + case["b0_unit"], "varied=" + "+".join(case["varied"]))
     ctx.nontrivial(case["T_unit"] != "K" or case["rho_unit"] != "kg/m3" or
-                   (not case["default_b0"] and case["b0_unit"] == "mmol/kg"))
+                   (form == "quantity" and case["b0_unit"] == "mmol/kg"))
     for which, own, want_dims in (("A", A_own, DIM_NONE), ("B", B_own, DIM_PER_M)):
         vals = []
         for p in (case["p1"], case["p2"]):
@@ -910,7 +941,8 @@ SUBCHECKS = [
              rule="mapping formula -> molality; substances None / string / dict of Substance / synthetic Substance objects",
              tolerances={"value_rel": 1e-12, "relation_rel": 4e-12, "nonneutral_min_rel_net": 1e-12}),
     SubCheck("dh_constants", check_dh, strategy=dh_cases(), quick=500, thorough=24000,
-             rule="A and B at two points on the numeric, units= and constants-object paths",
+             rule="A and B at two points on the numeric, units= and constants-object paths; b0 omitted, the plain int 1 "
+                  "(positional / keyword) or a molality quantity",
              tolerances={"paths_rel": 1e-5, "own_formula_rel": 1e-5, "exponent_ratio_rel": 1e-9}),
     SubCheck("log_gamma", check_gamma, strategy=gamma_cases(), quick=1200, thorough=80000,
              rule="limiting/extended/davies log gamma, plain and with units on I, I0, a, B",
